@@ -1,7 +1,8 @@
 /-
   Line-protocol driver over the executable models: one request per line (an s-expression),
-  one response per line.  Only `SoupVerif.Model.*` and `SoupVerif.Generated.*` are imported, so
-  this links without Mathlib.
+  one response per line.  Only `SoupVerif.Model.*`, `SoupVerif.Generated.*` and the Mathlib-free
+  `SoupVerif.Spec.RegexCost` / `SoupVerif.Spec.ParseCost` are imported, so this links without
+  Mathlib.
 -/
 import SoupVerif.Model.Api
 import SoupVerif.Model.Codec
@@ -14,6 +15,7 @@ import SoupVerif.Model.Pretty
 import SoupVerif.Model.Cache
 import SoupVerif.Model.Memo
 import SoupVerif.Spec.RegexCost
+import SoupVerif.Spec.ParseCost
 import SoupVerif.Model.Imports
 import SoupVerif.Generated.Imports
 open SoupVerif
@@ -208,6 +210,26 @@ def handle (req : Sx) : Sx :=
       | .ok l => .list [.int 0, .list (qs.map (runQuery (mkEnv bl br) d l n))]
       | .error e => .list [.int 1, .int (errCode e.kind), Sx.ofNat e.offset]
     | _, _, _, _, _, _ => .list [.int (-9)]
+  -- parser cost: (19 pattern ((name def) ...)) -> (steps cost): iterations of the `parse_selectors` loop
+  --   (calls of `next(iselector)`, nested lists and custom definitions included) and regex work, Python folding
+  | .list [.int 19, pat, .list customs] =>
+    let cs := customs.mapM fun
+      | .list [k, v] => do pure (← k.toStr?, ← v.toStr?)
+      | _ => none
+    match pat.toStr?, cs with
+    | some pat, some cs =>
+      .list [Sx.ofNat (ParseCost.compileSteps pyFoldEnv Gen.lexicon Gen.builtinsRec pat cs 0),
+             Sx.ofNat (ParseCost.compileCost pyFoldEnv Gen.lexicon Gen.builtinsRec pat cs 0)]
+    | _, _ => .int (-9)
+  -- number of backtracking paths only: (21 regexName s i)
+  | .list [.int 21, nm, t, i] =>
+    match nm.toStr?, t.toStr?, i.toNat? with
+    | some nm, some t, some i =>
+      let name := String.mk (nm.map Char.ofNat)
+      match Gen.allRegexes.find? (fun p => p.1 == name) with
+      | none => .int (-4)
+      | some (_, r) => Sx.ofNat (Rx.paths pyFoldEnv t r i)
+    | _, _, _ => .int (-9)
   -- per-regex verdict of the C07 analysis: (18 regexName) -> (StarSafe Det) under Python's folding
   | .list [.int 18, nm] =>
     match nm.toStr? with
